@@ -71,6 +71,14 @@ func genC11(seed uint64, i int, tier string) *Scenario {
 		n += r.Range(2, 9)
 	}
 	sc.Init = genStore(r, n, pick(r, []string{StoreMixed, StoreInts, StoreText}))
+	if r.Chance(0.3) {
+		// empty values: a stored empty value is a value, not a missing pair
+		for j := range sc.Init {
+			if r.Chance(0.25) {
+				sc.Init[j].V = ""
+			}
+		}
+	}
 	cur := append([]KV{}, sc.Init...)
 	nst := pick(r, []int{1, 1, 2, 3, 5})
 	for len(sc.Hist) < nst {
